@@ -18,8 +18,13 @@ Reset == /\ Rec[l].act.op = "reset"
          /\ act' = Rec[l].act
          /\ res' = ROk
 
+\* Boolean combinations are judged by the relation LogicOk (any order of operands is a legal implementation);
+\* every other call by the model's own action
 Step == /\ Rec[l].act.op # "reset"
-        /\ Do(Rec[l].act)
+        /\ IF Rec[l].act.op = "logic"
+           THEN /\ LogicOk(Rec[l].act.fm, Rec[l].res)
+                /\ act' = Rec[l].act /\ UNCHANGED <<prev, rcN, rcK>>
+           ELSE Do(Rec[l].act)
         /\ res' = Rec[l].res
         /\ obs' = Rec[l].obs
         /\ progress' = Rec[l].progress
